@@ -22,3 +22,4 @@ def run(ctx, res):
     lookup.rule_cancel_safe(ctx, res)
     lookup.rule_timer_order(ctx, res)
     lookup.rule_shutdown_stream(ctx, res)
+    lookup.rule_round_nonempty(ctx, res)
